@@ -49,6 +49,9 @@ type Engine struct {
 	TyEnv *types.Env
 	Rt    *val.Env
 	Ops   []oper.Operator
+	// UserFuns are function types registered in the caller's own (inner)
+	// typing environment, the one CheckAST chains in front of TyEnv
+	UserFuns []*types.Type
 }
 
 func NewEngine() *Engine {
@@ -89,6 +92,9 @@ func (e *Engine) CheckAST(parsed ast.Expr, env map[string]*types.Type, names []s
 	te := types.NewEnv()
 	for _, n := range names {
 		te.Put(n, env[n])
+	}
+	for _, ft := range e.UserFuns {
+		te.RegisterFun(ft)
 	}
 	ty := types.Check(expr, te.Inherit(e.TyEnv))
 	return expr, ty
